@@ -14,6 +14,7 @@ The machinery is shared with C09 (harness/props/c09.py)."""
 import contextlib
 import hashlib
 import json
+import os
 import time
 from collections import Counter
 from fractions import Fraction
@@ -51,6 +52,7 @@ CHECK = ("fun c => let '(co, mx, p0, phs, evs, obs) := c in "
          "check_search (fq co) (fq mx) (1 # 100000)%Q p0 phs evs obs")
 SHOW = "fun c => let '(co, mx, p0, phs, evs, obs) := c in show_search (fq co) (fq mx) p0 phs evs"
 PRIOR_TOL = Fraction(1, 100000)
+MAX_REPORTS = 5        # replays written per run (every violating search is counted in the evidence)
 
 
 class Runaway(Exception):
@@ -480,7 +482,7 @@ def do_search(spec, record_solver=False, select=False):
                                          "visits_after": tree.simulations})
                 if tree.position is not phr["pos"] or pos_code(tree.position) != phr["code"]:
                     rec.problems.append({"clause": "the searched position is left untouched", "phase": j})
-            if select:
+            if select and tree.children:      # a move is requested only where there is one to play
                 rec.choices, rec.calls = [], []
                 m = engine.select_root_move(tree)
                 trace["select"] = {"move": m, "choices": list(rec.choices), "calls": list(rec.calls)}
@@ -523,7 +525,7 @@ def audit(trace, max_problems=5):
     spec, rec = trace["spec"], trace["rec"]
     cutoff = Fraction(f32(spec["cutoff"]))
     mix = spec["noise"]["mix"] if spec.get("noise") else 0.25
-    problems = list(rec.problems)
+    problems = []
     stats = Counter()
     used_evals = set()
 
@@ -627,6 +629,7 @@ def audit(trace, max_problems=5):
 
     if trace.get("tree") is not None:
         walk(trace["tree"], [])
+    problems.extend(rec.problems)      # what the driver saw while searching (visit counts, crashes), after the tree's clauses
     stats["evals"] = len(rec.evals)
     stats["simulations"] = sum(len(p["css"]) for p in rec.phases)
     return problems, stats
@@ -800,28 +803,54 @@ def tie_cutoff(run):
 def volumes(run):
     if run.quick:
         return dict(count=150, sizes=[3, 4], max_budget=60, transformer=2)
-    return dict(count=2000, sizes=[3, 4, 5, 6], max_budget=200, transformer=6)
+    # sizes 5 and 6 are a quarter of the searches (their trees and id tables are large)
+    return dict(count=800, sizes=[3, 4, 3, 4, 5, 3, 4, 6], max_budget=200, transformer=6)
 
 
 # --------------------------------------------------------------------------
 # the three entry points
 # --------------------------------------------------------------------------
+def one_search(spec):
+    """worker: run the searches of one spec, audit, build the Coq case.  Returns picklable data only"""
+    import torch
+    torch.set_num_threads(1)
+    trace = do_search(spec)
+    problems, stats = audit(trace)
+    if os.environ.get("VERIF_COQ_ONLY") and not trace["crash"]:
+        problems = []           # self-test of the Coq tie: let the model's replay find the disagreement on its own
+    out = {"spec": spec, "key": spec_key(spec), "problems": problems, "stats": dict(stats), "term": None,
+           "root_position": takio.j_pos(trace["root_pos"]),
+           "impl_tree": tree_summary(trace["tree"], 1) if trace.get("tree") is not None else None}
+    if not problems and not stats["inexact_noise_mix"] and not stats["hypothesis_not_met"] and representable(trace):
+        out["term"] = case_term(trace)
+    return out
+
+
+def pmap(fn, items, workers=None):
+    """fork-based process pool (the implementation is already imported; torch runs single-threaded)"""
+    import multiprocessing as mp
+    workers = workers or max(1, min(core.NPROC, 12))
+    if workers == 1 or len(items) < 4:
+        return [fn(x) for x in items]
+    with mp.get_context("fork").Pool(workers) as pool:
+        return pool.map(fn, items, chunksize=1)
+
+
 def correspondence(run):
     core.setup_impl(ext=True, shims=True)
     import torch
     torch.set_num_threads(1)
     tie_cutoff(run)
     specs = gen_specs(run, **volumes(run))
-    cs = core.Cases(ID, "search", HEADER, CTYPE, CHECK, show=SHOW, shard=(3 if run.quick else 8))
+    cs = core.Cases(ID, "search", HEADER, CTYPE, CHECK, show=SHOW, shard=(3 if run.quick else 4))
     seen, dist, samples = set(), Counter(), []
     total_stats = Counter()
     nontrivial = 0
     t0 = time.time()
-    for spec in specs:
-        trace = do_search(spec)
-        problems, stats = audit(trace)
+    results = pmap(one_search, specs)
+    for res in results:
+        spec, stats, key = res["spec"], Counter(res["stats"]), res["key"]
         total_stats.update(stats)
-        key = spec_key(spec)
         dist[f"size{spec['size']}"] += 1
         dist[f"eval:{spec['eval']['kind']}"] += 1
         dist[f"sampler:{spec['sampler']['mode']}"] += 1
@@ -833,24 +862,26 @@ def correspondence(run):
         if stats["hypothesis_not_met"]:
             dist["skipped:no-legal-move-reaches-the-cutoff"] += 1
             continue
-        if problems:
-            report(run, trace, problems, None)
+        if res["problems"]:
+            dist["searches_violating"] += 1
+            if dist["searches_violating"] <= MAX_REPORTS:
+                report(run, res, None)
             continue
-        if stats["inexact_noise_mix"]:
+        if res["term"] is None:
             dist["skipped:inexact-noise-mix"] += 1
             continue
-        cs.add(case_term(trace), {"spec": spec, "key": key})
+        cs.add(res["term"], {"spec": spec, "key": key})
         if len(samples) < 4:
-            samples.append({"spec": spec, "tree": tree_summary(trace["tree"], 1)})
+            samples.append({"spec": spec, "tree": res["impl_tree"]})
     gen_s = time.time() - t0
     failing, shard_fail, nshards = cs.run()
     run.oblige(f"correspondence:search ({nshards} shards, {len(cs)} searches replayed by the model)", not shard_fail,
                str(shard_fail)[:1500])
-    for meta in failing:
-        trace = do_search(meta["spec"])
-        problems, _ = audit(trace)
+    dist["searches_disagreeing_with_model"] = len(failing)
+    for meta in failing[:MAX_REPORTS]:
+        res = one_search(meta["spec"])
         view = cs.model_view(cs.terms[cs.metas.index(meta)])
-        report(run, trace, problems, view)
+        report(run, res, view)
     dist.update({f"nodes:{k}": v for k, v in total_stats.items()})
     run.extra["impl_wall_s"] = round(gen_s, 1)
     run.count(len(specs), nontrivial,
@@ -860,14 +891,14 @@ def correspondence(run):
               samples, dict(dist), label="search")
 
 
-def report(run, trace, problems, model_view):
-    spec = trace["spec"]
+def report(run, res, model_view):
+    spec, problems = res["spec"], res["problems"]
     clause = problems[0]["clause"] if problems else "the model's replay of the recorded streams gives a different tree"
     run.violation(f"search-{spec_key(spec)}", {
         "clause": clause, "spec": spec,
-        "root_position": takio.j_pos(trace["root_pos"]),
+        "root_position": res["root_position"],
         "auditor_problems": problems,
-        "impl_tree": tree_summary(trace["tree"], 1) if trace.get("tree") is not None else None,
+        "impl_tree": res["impl_tree"],
         "model_view": model_view,
         "how_to_replay": "./check C08 --replay <this file>: re-runs the searches the spec describes (evaluator, sampler and "
                          "noise are functions of the seeds in the spec) and audits the tree",
@@ -877,11 +908,9 @@ def report(run, trace, problems, model_view):
 def search(run, broken):
     """something no longer checks: audit freshly generated searches against the invariant itself"""
     core.setup_impl(ext=True, shims=True)
-    for spec in gen_specs(run, count=60, sizes=[3, 4], max_budget=40, transformer=0):
-        trace = do_search(spec)
-        problems, _ = audit(trace)
-        if problems:
-            report(run, trace, problems, None)
+    for res in pmap(one_search, gen_specs(run, count=60, sizes=[3, 4], max_budget=40, transformer=0)):
+        if res["problems"] and not res["stats"].get("hypothesis_not_met"):
+            report(run, res, None)
             return True
     return False
 
